@@ -430,6 +430,81 @@ func runC20(c *core.Ctx) {
 			}
 		}
 	}
+	// one source probing two of the sensor's addresses: reported per destination. The second address
+	// is that of any other interface of the machine (hook VerifAddInterface); without one the case is skipped.
+	c.Case("destinations/one source, two sensor addresses", func() {
+		var second net.IP
+		var intf2 net.Interface
+		ifs, _ := net.Interfaces()
+		for _, it := range ifs {
+			if it.Name == "lo" {
+				continue
+			}
+			addrs, _ := it.Addrs()
+			for _, a := range addrs {
+				if n, ok := a.(*net.IPNet); ok && n.IP.To4() != nil && second == nil {
+					second, intf2 = n.IP.To4(), it
+				}
+			}
+		}
+		if second == nil {
+			c.Note("no second interface with an IPv4 address: the two-destination scan scenarios were not run")
+			return
+		}
+		dsts := []net.IP{ipServer, second}
+		for _, proto := range []string{"tcp", "udp"} {
+			for _, order := range [][]int{{0, 1, 0, 1}, {0, 0, 1, 1}, {1, 0, 0, 1}} {
+				l := newCanaryLab(canaryCfg{arpFor: allClients()})
+				l.c.VerifAddInterface(intf2)
+				l.startKnock()
+				lab.Quiesce()
+				src := clientIP(5)
+				want := map[string]map[string]bool{}
+				for i, di := range order {
+					port := uint16(8081 + i)
+					var f []byte
+					if proto == "tcp" {
+						f = eth(macServer, macClient, 0x0800, ip4(ipOpts{proto: 6, src: src, dst: dsts[di], totalLen: -1}, tcpSeg(tcpOpts{sport: uint16(30000 + i), dport: port, seq: uint32(1000 + i), flags: fSYN}, src, dsts[di], nil)))
+					} else {
+						f = eth(macServer, macClient, 0x0800, ip4(ipOpts{proto: 17, src: src, dst: dsts[di], totalLen: -1}, udpDgram(uint16(30000+i), port, -1, []byte("x"))))
+					}
+					if p, w := l.inject(f); p != "" {
+						c.Violationf("C20:panic:"+w, "probe to %s panicked: %s", dsts[di], p)
+					}
+					lab.Quiesce()
+					d := dsts[di].String()
+					if want[d] == nil {
+						want[d] = map[string]bool{}
+					}
+					want[d][fmt.Sprintf("%s/%d", proto, port)] = true
+					c.Count("transitions", 1)
+				}
+				l.c.VerifDrainTx()
+				reports := c20Drain(l)
+				c.Count("executions", 1)
+				desc := fmt.Sprintf("one source probes the sensor addresses %v over %s in the order %v", dsts, proto, order)
+				for d, set := range want {
+					n := 0
+					got := map[string]bool{}
+					for _, r := range reports {
+						if r.src == src.String() && r.dst == d {
+							n++
+							for _, p := range r.ports {
+								got[p] = true
+							}
+						}
+					}
+					if n != 1 {
+						c.Violationf("C20:per-destination:count", "%s: %d port-scan events for destination %s, expected one (all reports: %v)", desc, n, d, reports)
+					} else if fmt.Sprint(keysOf(got)) != fmt.Sprint(keysOf(set)) {
+						c.Violationf("C20:per-destination:ports", "%s: the event for destination %s lists %v, probed there: %v", desc, d, keysOf(got), keysOf(set))
+					}
+				}
+				l.close()
+				c.Outcome("two-destinations", proto, fmt.Sprint(order), fmt.Sprint(len(reports)))
+			}
+		}
+	})
 	// several sources: all interleavings of their probes, <= 6 probes total
 	type multi struct{ lens []int }
 	for mi, m := range []multi{{[]int{3, 3}}, {[]int{2, 2, 2}}, {[]int{2, 2, 1, 1}}, {[]int{1, 1, 1, 1}}, {[]int{4, 2}}} {
